@@ -208,10 +208,16 @@ func (g *rtGen) event(r *Rng, base int64) any {
 
 func (g *rtGen) stus(r *Rng, base int64) []any {
 	n := r.Intn(5)
+	bySequence := false
+	if r.P(1, 25) {
+		// a long run of updates, half of the time identified by stop_sequence only (no stop id anywhere)
+		n = 5 + r.Intn(40)
+		bySequence = r.Bool()
+	}
 	out := []any{}
 	for i := 0; i < n; i++ {
 		s := map[string]any{"arrival": g.event(r, base), "departure": g.event(r, base)}
-		if r.P(5, 6) {
+		if !bySequence && r.P(5, 6) {
 			s["stopId"] = bstr(r.Pick(stopPool))
 		}
 		if r.P(1, 2) {
